@@ -2845,6 +2845,7 @@ func (uconn *UConn) ApplyPreset(p *ClientHelloSpec) error {
 	// Check whether NPN extension actually exists
 	var haveNPN bool
 	var haveALPN bool
+	var haveEMS bool
 
 	// reGrease, and point things to each other
 	for _, e := range uconn.Extensions {
@@ -2936,6 +2937,8 @@ func (uconn *UConn) ApplyPreset(p *ClientHelloSpec) error {
 			haveNPN = true
 		case *ALPNExtension:
 			haveALPN = true
+		case *ExtendedMasterSecretExtension:
+			haveEMS = true
 		}
 	}
 
@@ -2947,6 +2950,11 @@ func (uconn *UConn) ApplyPreset(p *ClientHelloSpec) error {
 	// must not be accepted on the strength of the Config (ALPNExtension sets the list itself).
 	if !haveALPN {
 		hello.AlpnProtocols = nil
+	}
+	// makeClientHello also assumes extended_master_secret; the hello only offers it when the spec
+	// carries the extension (ExtendedMasterSecretExtension sets the flag itself).
+	if !haveEMS {
+		hello.Ems = false
 	}
 
 	err = uconn.sessionController.syncSessionExts()
